@@ -17,9 +17,10 @@ def opTarget (s : State) : Op → Option Name
   | _ => none
 
 /-- all other names keep their records -/
-theorem exec_getName_other {op : Op} (h : exec s op = .ok s') (n : Name) (hn : opTarget s op ≠ some n) :
-    getName s' n = getName s n := by
+theorem exec_getName_other {op : Op} (h : exec s op = .ok s') (n : Name) (hn : opTarget s op ≠ some n)
+    (hm : ∀ m, op ≠ .migrateChainIds m) : getName s' n = getName s n := by
   cases op
+  case migrateChainIds m => exact absurd rfl (hm m)
   case register a m dur pay c =>
     have hnm : n ≠ m := fun e => hn (by simp [opTarget, e])
     simp only [exec] at h
@@ -122,6 +123,10 @@ theorem exec_getName_other {op : Op} (h : exec s op = .ok s') (n : Name) (hn : o
 /-- a record that appears for a name without one is a fresh registration: no address records -/
 theorem name_created {op : Op} (h : exec s op = .ok s') {n : Name} {d' : DymName}
     (hn : getName s n = none) (hd' : getName s' n = some d') : d'.configs = [] := by
+  by_cases hmig : ∃ m, op = .migrateChainIds m
+  · obtain ⟨m, rfl⟩ := hmig
+    obtain ⟨rfl, _, _⟩ := migrateChainIds_ok h
+    rw [getName_migrateT, hn] at hd'; cases hd'
   by_cases ht : opTarget s op = some n
   · cases op <;> simp only [opTarget, Option.some.injEq, reduceCtorEq] at ht
     case register a m dur pay c =>
@@ -186,13 +191,11 @@ theorem name_created {op : Op} (h : exec s op = .ok s') {n : Name} {d' : DymName
           rename (getNameLive s bo.asset = some _) => hl
           have := (getNameLive_some hl).1
           rw [ht, hn] at this; cases this
-  · rw [exec_getName_other h n ht, hn] at hd'; cases hd'
+  · rw [exec_getName_other h n ht (fun m e => hmig ⟨m, e⟩), hn] at hd'; cases hd'
 
 end
 
 /-! ### upsert / remove keep the identities distinct -/
-
-def cid (c : Config) : Chain × Path := (c.chain, c.path)
 
 theorem sameId_iff (x : Config) (ch : Chain) (p : Path) : sameId x ch p = true ↔ cid x = (ch, p) := by
   simp [sameId, cid]
@@ -305,6 +308,12 @@ theorem exec_cfgOK {s s' : State} {op : Op} (hI : Inv s) (hC : CfgOK s) (h : exe
       | purchase a offer so hso hsel hse he hna => exact cfgWF_nil
       | complete a so b hso hsel hb he ha => exact cfgWF_nil
       | accept pfx id m bo hg hna hn he hso hb => exact cfgWF_nil
+      | migrate m he hnd =>
+        refine ⟨hnd, fun c hc h0 => ?_⟩
+        obtain ⟨c0, hc0, rfl⟩ := List.mem_map.mp hc
+        have hz := (migConfig_chain_zero m c0).mp h0
+        rw [migConfig_of_zero m hz]
+        exact hd0.2 c0 hc0 hz
 
 theorem run_inv_cfgOK {s : State} (ops : List Op) (hI : Inv s) (hC : CfgOK s) :
     Inv (run s ops) ∧ CfgOK (run s ops) := by
